@@ -198,7 +198,7 @@ def check_render(C, RO, srv, o, ospec, conf_obj, cspec, is_global, opts, f, clas
         return
     S = whole if whole is not None else lines
     # history independence
-    base = srv.ask({"obj": ospec, "conf": cspec if (not is_global or cspec.get("map") or cspec.get("regs") or cspec.get("no_color")) else None,
+    base = srv.ask({"obj": (dict(ospec, _as_final=True) if ospec.get("refmt") else ospec), "conf": cspec if (not is_global or cspec.get("map") or cspec.get("regs") or cspec.get("no_color")) else None,
                     "global": is_global, "no_color": no_color, "palette": pal})
     if "error" in base:
         if base.get("in_package"):
@@ -263,18 +263,30 @@ def st_conf():
 
 def st_pp_value():
     leaf = st.one_of(st.none(), st.booleans(), st.integers(-999, 10**6), st.floats(-10, 10, allow_nan=False),
+                     st.sampled_from([0, 1, 2, 10, 0.0, 1.0, 2.0, 10.0, -0.0, 1e1]),
                      st.text("abc xyz", max_size=8), st.text("ab \r\x0c\x1c\x85\u2028\t", min_size=1, max_size=5))
     return st.recursive(leaf, lambda c: st.lists(c, max_size=4).map(lambda x: ["l", x]) |
                         st.lists(st.tuples(st.text("kq", min_size=1, max_size=3), c), max_size=4,
                                  unique_by=lambda kv: kv[0]).map(lambda kv: ["d", [list(p) for p in kv]]), max_leaves=10) | \
-        st.just(["l", ["x" * 40, 123456, True, None] * 5])
+        st.just(["l", ["x" * 40, 123456, True, None] * 5]) | \
+        st.lists(st.sampled_from([0, 1, 2, 10, 0.0, 1.0, 2.0, 10.0, -0.0, 1e1, True, False, 7, 7.0]), min_size=1, max_size=5).map(
+            lambda x: ["l", x]) | \
+        st.lists(st.tuples(st.sampled_from(["id", "n", "flag"]), st.sampled_from([0, 1, 0.0, 1.0, 2, 2.0, True, None])), min_size=1,
+                 max_size=3, unique_by=lambda kv: kv[0]).map(lambda kv: ["d", [list(p) for p in kv]])
 
 
 @st.composite
 def st_obj(draw):
     k = draw(st.sampled_from(["pp", "table", "table", "table", "record", "ghist", "hdoc"]))
     if k == "pp":
-        return {"k": "pp", "json": draw(st.booleans()), "value": draw(st_pp_value())}
+        return {"k": "pp", "json": draw(st.booleans()), "value": draw(st_pp_value()), "shared": draw(st.booleans())}
+    if k == "table" and draw(st.integers(0, 3)) == 0:
+        # a table that reached its format through prints and format changes; the baseline builds it with that format directly
+        rc = draw(tables.st_reformat_case(allow_dict=False))
+        if rc["a"]["kind"] != "tuple_nofields":      # (explicit columns for plain tuples need 'fields': not constructible directly)
+            return {"k": "table", "case": rc["a"], "refmt": {"steps": rc["steps"], "final": rc["final"],
+                                                             "first_colored": rc["first_colored"]}}
+        return {"k": "table", "case": rc["a"]}
     if k == "table":
         case = draw(tables.st_table_case(max_records=6, allow_dict=False, allow_hidden=False))
         if not case["enums"] and draw(st.booleans()) and case["kind"] != "tuple_nofields" and case["records"]:
